@@ -6,7 +6,7 @@ SPEC = {
     'prop_files': ['theories/Properties/C10_cbor.v'],
     'coq_targets': ['theories/Properties/C10_cbor.vo', 'theories/Wire/CborProofs.vo', 'theories/Wire/CborTime.vo', 'theories/Wire/CborEnc.vo', 'theories/Wire/CborDepth.vo', 'theories/Wire/CborTotal.vo', 'theories/Wire/CborDepthErr.vo', 'theories/Wire/CborCorr.vo'],
     'closure_dirs': ['theories/Wire/Cbor.v', 'theories/Wire/CborFloat.v', 'theories/Wire/CborProofs.v', 'theories/Wire/CborTime.v', 'theories/Wire/CborEnc.v', 'theories/Wire/CborDepth.v', 'theories/Wire/CborTotal.v', 'theories/Wire/CborDepthErr.v', 'theories/Wire/CborCorr.v', 'theories/C10/CborConv.v',
-                     'theories/C10/CborSpec.v', 'theories/Wire/Item.v', 'theories/Base/Outcome.v', 'theories/Gen/Consts.v'],
+                     'theories/C10/CborSpec.v', 'theories/C10/LeafTie.v', 'theories/Wire/Item.v', 'theories/Base/Outcome.v', 'theories/Base/Word.v', 'theories/Gen/Consts.v', 'theories/Gen/Leaf2.v'],
     'harness': 'wirecbor',
     'args': {
         'quick': ['-enc', 500, '-ref', 500, '-mut', 350, '-rand', 350, '-first', 3, '-skip', 350, '-leaf', 300, '-transport', 200],
